@@ -198,6 +198,31 @@ fn examine(h: &History, r: &mut Restarted, allowed: &BTreeSet<usize>, rep: &mut 
             rep.violate(&format!("{}/clean-restart-different-supply", keyp), format!("{:?} before, {:?} after", before.reservoirs, o.reservoirs), case.clone());
         }
     }
+    // (4a) resynchronisation: peers serve again every block of the history the restarted node
+    // does not hold (the lost ones included); none of that may abort the node
+    {
+        let have: BTreeSet<Hash> = o.blocks.iter().map(|b| b.0).collect();
+        // ... within the range of heights it retains (older, pruned blocks are a separate history)
+        let lowest_kept = o.blocks.iter().map(|b| b.1).min().unwrap_or(0);
+        for &wi in h.order.iter() {
+            if have.contains(&w.blocks[wi].hash) || w.blocks[wi].id < lowest_kept {
+                continue;
+            }
+            match deliver(&mut r.n, &w.blocks[wi].bytes) {
+                Outcome::Done(()) => {}
+                ob => {
+                    rep.violate(&format!("{}/abort-on-resync", keyp), format!("re-delivery of {}: {}", w.blocks[wi].label, ob.label()), case.clone());
+                    return;
+                }
+            }
+        }
+        rep.outcome("restart:resynced");
+    }
+    let o = r.n.obs();
+    let Some(t) = w.index_of(&o.tip_hash) else {
+        rep.violate(&format!("{}/tip-unknown-after-resync", keyp), format!("tip {}:{}", o.tip_id, hx(&o.tip_hash[..6])), case.clone());
+        return;
+    };
     // (4) the chain can be extended
     let mut w2 = World { builder_cfg: None, cfg: w.cfg.clone(), creator: w.creator, blocks: w.blocks.clone(), ledgers: w.ledgers.clone(), initial_supply: w.initial_supply };
     match w2.honest_child(t, 77, "next") {
@@ -318,6 +343,77 @@ fn crash_sweep(h: &History, rep: &mut Report, nested: bool) {
     }
 }
 
+/// a history of its own: after the run, an archive peer serves again the blocks the node has
+/// already pruned (heights at or below tip - 2g); then a clean shutdown and restart
+fn pruned_redelivery(h: &History, rep: &mut Report, restart_first: bool) {
+    let w = &h.tw.w;
+    let io = MemIO::new();
+    let mut n = FullNode::new(key(9), node_cfg(w), io.clone(), ManualClock::new(5_000_000));
+    let _ = n.init();
+    for &wi in h.order.iter() {
+        let _ = deliver(&mut n, &w.blocks[wi].bytes);
+    }
+    if restart_first {
+        // the same after a clean restart: the restarted node's first block has no stored parent
+        match restart(w, n.io.files(), true) {
+            Ok(r) => n = r.n,
+            Err(_) => return,
+        }
+    }
+    let before = n.tip();
+    let o = n.obs();
+    let lowest_kept = o.blocks.iter().map(|b| b.1).min().unwrap_or(0);
+    let old: Vec<usize> = h.order.iter().cloned().filter(|&wi| w.blocks[wi].id < lowest_kept).collect();
+    if old.is_empty() {
+        return;
+    }
+    let case = json!({"history": h.label, "restart_before_redelivery": restart_first, "then": "blocks below the purge horizon delivered again", "redelivered": old.iter().map(|&i| w.blocks[i].label.clone()).collect::<Vec<_>>()});
+    for &wi in old.iter() {
+        match deliver(&mut n, &w.blocks[wi].bytes) {
+            Outcome::Done(()) => {}
+            ob => {
+                rep.violate("pruned-redelivery/abort", format!("re-delivery of {}: {}", w.blocks[wi].label, ob.label()), case.clone());
+                return;
+            }
+        }
+    }
+    rep.evaluations += 1;
+    if n.tip() != before {
+        rep.violate("pruned-redelivery/tip-moved", format!("tip {}:{} before, {}:{} after blocks below the purge horizon were delivered again", before.0, hx(&before.1[..6]), n.tip().0, hx(&n.tip().1[..6])), case.clone());
+        return;
+    }
+    // the node keeps working: one more block on its tip
+    let mut before = before;
+    if let Some(t) = w.index_of(&before.1) {
+        let mut w2 = World { builder_cfg: None, cfg: w.cfg.clone(), creator: w.creator, blocks: w.blocks.clone(), ledgers: w.ledgers.clone(), initial_supply: w.initial_supply };
+        if let Ok(ci) = w2.honest_child(t, 78, "next") {
+            let bytes = w2.blocks[ci].bytes.clone();
+            let _ = deliver(&mut n, &bytes);
+            if n.tip().1 != w2.blocks[ci].hash {
+                rep.violate("pruned-redelivery/cannot-extend", format!("an honest child of the tip {} was not adopted", w.blocks[t].label), case.clone());
+                return;
+            }
+            before = n.tip();
+        }
+    }
+    for delete_old in [true, false] {
+        let mut c = case.clone();
+        c["delete_old_blocks"] = json!(delete_old);
+        match restart(w, n.io.files(), delete_old) {
+            Ok(r) => {
+                rep.traces_validated += 1;
+                let got = r.n.tip();
+                if got != before {
+                    rep.violate("pruned-redelivery/restart-different-tip", format!("tip {}:{} before shutdown; after a clean restart {}:{}", before.0, hx(&before.1[..6]), got.0, hx(&got.1[..6])), c);
+                } else {
+                    rep.outcome("pruned-redelivery:same-tip-after-restart");
+                }
+            }
+            Err(e) => rep.violate("pruned-redelivery/restart-aborts", e, c),
+        }
+    }
+}
+
 /// crash during the recovery: every prefix of the recovery's own storage operations
 fn nested_sweep(h: &History, image: &BTreeMap<String, Vec<u8>>, allowed: &BTreeSet<usize>, rep: &mut Report, case: &serde_json::Value) {
     let w = &h.tw.w;
@@ -407,6 +503,8 @@ pub fn main(tier: Tier, _replay: Option<String>) -> i32 {
     let res = par_map(&hs, workers(), |_, h| {
         let mut r = rep.child();
         crash_sweep(h, &mut r, nested);
+        pruned_redelivery(h, &mut r, false);
+        pruned_redelivery(h, &mut r, true);
         r.transitions += h.journal.len() as u64;
         r
     });
